@@ -42,10 +42,17 @@ RULE = ("seeded generator; exact family: coordinates (k/4)*2^s, k in [-8,24], on
         "about a third of the cases hand each side over in its own representation out of {float64 array, list of lists, "
         "tuple of tuples, list of row arrays, float32, narrowest int, narrowest uint, Fortran order, strided view, "
         "read-only array} (a representation that cannot hold the values exactly falls back to float64); "
+        "every case is called twice on the same argument objects, bottleneck(S, T) and bottleneck(S, T, matching=True), and "
+        "the distance of EACH call (the first component under the flag) is compared with the min-max cost and with the model, "
+        "as is the infinite-death warning of each call; half of C01's own cases spell the flag differently (positional, "
+        "numpy bool, the integer 1); an exception under the flag is a failure; "
         "call histories (harness/history.py; 16 quick / 150 thorough, 5-7 calls each in one interpreter, equal-valued "
         "diagrams being the same objects in every call): pairwise distances over a pool of 3-5 diagrams incl. a diagram "
-        "against itself, one pair called repeatedly and exchanged, a malformed call (ragged / 1-d / text / None argument) "
-        "between clean calls - every call must satisfy the predicate; every batch under PYTHONHASHSEED 0,1,2. "
+        "against itself, one pair called repeatedly and exchanged, a call that raises (ragged / 1-d / text / None argument, or "
+        "warnings turned into errors on a diagram with infinite deaths) between clean calls; in 30% of the steps the flagged "
+        "call comes before the plain one; the returned matching array is overwritten (history.scribble) once read - every call "
+        "must satisfy the predicate; every batch under PYTHONHASHSEED 0,1,2,3,5,7,11,42 (quick; 14 values thorough: the model "
+        "runs are shared, one more hash seed costs one implementation run). "
         "A case is non-trivial when the matching returned by the implementation uses both a cross pairing "
         "and a diagonal pairing, or two candidate costs (pair or diagonal) are equal, or an empty-diagram / "
         "infinite-death branch is exercised; a history when at least two of its calls are; distinct = distinct JSON input")
@@ -66,8 +73,9 @@ ASSUMPTIONS = [
     "numpy converts float32 / integer arrays, tuples, row lists and non-contiguous / read-only arrays to float64 "
     "without changing a value (the representations are only used when they hold the coordinates exactly)",
 ]
-HASHSEEDS = ["0", "1", "2"]
-HASHSEEDS_THOROUGH = ["0", "1", "2", "3", "7", "11", "42", "1234"]
+# one more hash seed costs one implementation run (~2.5 s in the quick tier): the model runs are shared through _cache
+HASHSEEDS = ["0", "1", "2", "3", "5", "7", "11", "42"]
+HASHSEEDS_THOROUGH = ["0", "1", "2", "3", "5", "7", "8", "11", "12", "13", "42", "101", "1234", "65535"]
 COQ_DEPS = ["Corr/BneckCorr.vo"]
 
 
@@ -257,11 +265,20 @@ def _side(rng, kind, sc):
 REPS = ["array", "list", "tuple", "rows", "f32", "int", "uint", "fortran", "view", "readonly"]
 
 
+# How the flag of the second call is spelled (C01's own cases; default "kw" = matching=True): positionally, as a
+# numpy bool, as the integer 1.  Whatever comes back, its distance component must be the min-max cost.
+FLAGS = ["kw", "kw", "kw", "pos", "np", "int"]
+
+
 def _finish(rng, c, sides=True):
     # one representation for both sides (the stream C06 shares), or - C01's own cases - one per side
     c["rep"] = rng.choice(["array", "array", "list"])
     if sides and rng.random() < 0.35:
         c["repS"], c["repT"] = rng.choice(REPS), rng.choice(REPS)
+    if sides:
+        f = rng.choice(FLAGS)
+        if f != "kw":
+            c["flag"] = f
     return c
 
 
@@ -323,6 +340,10 @@ def _histories(rng, n):
         def st(i, j):
             c = _hist_step(rng, pool[i], pool[j])
             c["repS"], c["repT"] = reps[i], reps[j]
+            if rng.random() < 0.3:
+                c["flag"] = rng.choice(["pos", "np", "int"])
+            if rng.random() < 0.3:
+                c["flag_first"] = True
             return c
         k = len(pool)
         if kind == "pairwise":
@@ -338,7 +359,13 @@ def _histories(rng, n):
             i, j = rng.randrange(k), rng.randrange(k)
             bad = rng.choice([[[0.0, 1.0], [2.0]], [0.0, 1.0, 2.0], [["a", "b"]], [[0.0, 1.0, 2.0, 3.0]], None])
             f = {"cls": "step", "fault": True, "family": "exact", "S": pool[i], "T": pool[j], "repS": reps[i], "repT": reps[j]}
-            f["raw" + rng.choice("ST")] = bad
+            winf = [a for a in range(k) if _has_inf(pool[a])]
+            if winf and rng.random() < 0.4:
+                # the caller runs with warnings turned into errors: the infinite-death warning aborts the call
+                i = rng.choice(winf)
+                f["S"], f["repS"], f["warn_error"] = pool[i], reps[i], True
+            else:
+                f["raw" + rng.choice("ST")] = bad
             steps = [st(i, j), f, st(i, j), st(j, i), st(rng.randrange(k), rng.randrange(k))]
         hs.append(history.make(kind, steps))
     return hs
@@ -609,20 +636,56 @@ def _one_call(c, memo):
     if c.get("fault"):      # a malformed argument; whatever happens, the later calls must be right
         S = c["rawS"] if "rawS" in c else S
         T = c["rawT"] if "rawT" in c else T
-    with warnings.catch_warnings(record=True) as w:
-        warnings.simplefilter("always")
-        d0 = bottleneck(S, T)
-        try:        # the second return value is C06's business; C01 observes d0 only
-            d1, rows = bottleneck(S, T, matching=True)
-            rows = [[float(x) for x in r] for r in np.asarray(rows, dtype=float).reshape(-1, 3)]
-            d1 = float(d1)
+    filt = "error" if c.get("warn_error") else "always"
+    st = {"d0": None, "msgs": [], "res": None, "flag_err": None, "msgs_m": []}
+
+    def plain():
+        with warnings.catch_warnings(record=True) as w:
+            warnings.simplefilter(filt)
+            st["d0"] = float(bottleneck(S, T))
+        st["msgs"] = [str(x.message) for x in w]
+
+    def flagged():
+        # the same arguments with the flag set: the distance component is C01's (the property is about the
+        # distance returned, whatever the flag); the rows are C06's business and only used by `nontrivial`
+        with warnings.catch_warnings(record=True) as wm:
+            warnings.simplefilter(filt)
+            try:
+                flag = c.get("flag", "kw")
+                if flag == "pos":
+                    st["res"] = bottleneck(S, T, True)
+                else:
+                    st["res"] = bottleneck(S, T, matching=np.True_ if flag == "np" else 1 if flag == "int" else True)
+            except Exception as e:  # noqa  (_CaseTimeout is a BaseException and passes through)
+                st["flag_err"] = {"error": type(e).__name__, "msg": str(e)[:200]}
+        st["msgs_m"] = [str(x.message) for x in wm]
+
+    # usually the plain call first; "flag_first" exchanges the two (what the first leaves behind meets the second)
+    for f in ((flagged, plain) if c.get("flag_first") else (plain, flagged)):
+        f()
+    d0, msgs, res, flag_err, msgs_m = st["d0"], st["msgs"], st["res"], st["flag_err"], st["msgs_m"]
+    d1, rows = None, (dict(flag_err) if flag_err is not None else [])
+    if flag_err is None:
+        pair = isinstance(res, (tuple, list)) and len(res) == 2
+        try:        # whether a matching comes with it is C06's business: the distance is what C01 observes
+            d1 = float(res[0] if pair else res)
         except Exception as e:  # noqa
-            d1, rows = None, {"error": type(e).__name__, "msg": str(e)[:200]}
-    msgs = [str(x.message) for x in w]
-    return {"dist": float(d0), "dist_m": d1, "rows": rows,
-            "warn1": any("dgm1" in m and "non-finite" in m for m in msgs),
-            "warn2": any("dgm2" in m and "non-finite" in m for m in msgs),
-            "hk_calls": monitor["calls"], "oracle_bad": monitor["bad"]}
+            flag_err = {"error": type(e).__name__, "msg": "distance component of the result: " + str(e)[:160]}
+        try:
+            rows = [[float(x) for x in r] for r in np.asarray(res[1], dtype=float).reshape(-1, 3)]
+        except Exception as e:  # noqa
+            rows = {"error": type(e).__name__, "msg": str(e)[:200]}
+        # a caller may edit what it got back: a later call of the same history must not depend on it
+        history.scribble(res[1] if pair else None)
+    out = {"dist": float(d0), "dist_m": d1, "rows": rows,
+           "warn1": any("dgm1" in m and "non-finite" in m for m in msgs),
+           "warn2": any("dgm2" in m and "non-finite" in m for m in msgs),
+           "warn1_m": any("dgm1" in m and "non-finite" in m for m in msgs_m),
+           "warn2_m": any("dgm2" in m and "non-finite" in m for m in msgs_m),
+           "hk_calls": monitor["calls"], "oracle_bad": monitor["bad"]}
+    if flag_err is not None:
+        out["flag_error"] = flag_err
+    return out
 
 
 def impl_call(c, memo=None):
@@ -699,6 +762,22 @@ def predicate(c, o):
             _has_inf(c["S"]), _has_inf(c["T"]), o.get("warn1"), o.get("warn2"))
     if o.get("oracle_bad"):
         return False, "oracle-assumption: HopcroftKarp %s" % o["oracle_bad"]
+    # the distance component of bottleneck(S, T, matching=True) on the same arguments: the property speaks of
+    # the distance returned, whatever the flag (outputs without the key predate this part of the check)
+    if "dist_m" in o:
+        fe = o.get("flag_error")
+        if fe is not None:
+            return False, "flag-error: bottleneck(..., matching=True) raised %s: %s (matching=False returned %r)" % (
+                fe.get("error"), fe.get("msg"), d)
+        dm = o["dist_m"]
+        if dm is None or dm != dm or dm in (float("inf"), float("-inf")):
+            return False, "flag-value: matching=True returned the distance %r, min-max matching cost is %s" % (dm, float(v))
+        if abs(Fr(dm) - v) > tol:
+            return False, "flag-value: matching=True returned the distance %r, min-max matching cost is %r (%s); matching=False returned %r" % (
+                dm, float(v), v, d)
+        if "warn1_m" in o and (_has_inf(c["S"]) != bool(o.get("warn1_m")) or _has_inf(c["T"]) != bool(o.get("warn2_m"))):
+            return False, "flag-warning: matching=True, infinite deaths in (dgm1, dgm2) = (%s, %s) but warnings = (%s, %s)" % (
+                _has_inf(c["S"]), _has_inf(c["T"]), o.get("warn1_m"), o.get("warn2_m"))
     return True, ""
 
 
@@ -864,39 +943,55 @@ def coq_jobs(cases, outs):
 
 
 def _judge_units(units):
-    """Verdicts for plain (case, out) pairs: the model is run inside Coq on each."""
+    """Verdicts for plain (case, out) pairs: the model is run inside Coq on each, once per distinct distance
+    the implementation returned (matching=False, and the first component under matching=True)."""
     verdicts = [None] * len(units)
     terms, idx = [], []
+    pending, queued = {}, set()
     for i, (c, o) in enumerate(units):
         if "error" in o:
             verdicts[i] = "disagree:implementation raised %s" % o["error"]
             continue
-        d = o["dist"]
-        if d != d or d in (float("inf"), float("-inf")):
-            verdicts[i] = "disagree:implementation returned %r, the model a finite value" % d
+        vals = [("", o["dist"])]
+        if "dist_m" in o:
+            if o.get("flag_error") is not None or o["dist_m"] is None:
+                verdicts[i] = "disagree:implementation raised / returned no distance with matching=True"
+                continue
+            if repr(o["dist_m"]) != repr(o["dist"]):
+                vals.append((" (matching=True)", o["dist_m"]))
+        bad = [(w, d) for w, d in vals if d != d or d in (float("inf"), float("-inf"))]
+        if bad:
+            verdicts[i] = "disagree:implementation returned %r%s, the model a finite value" % (bad[0][1], bad[0][0])
             continue
-        key = (core.sha({k: c[k] for k in ("S", "T", "family") if k in c}), repr(d))
-        if key in _cache:
-            verdicts[i] = _cache[key]
-            continue
-        try:
-            terms.append(coq_term(c, o))
-            idx.append((i, key))
-        except Exception as e:  # noqa
-            verdicts[i] = "skip:certificate search failed (%r)" % (e,)
+        ckey = core.sha({k: c[k] for k in ("S", "T", "family") if k in c})
+        pending[i] = []
+        for w, d in vals:
+            key = (ckey, repr(d))
+            pending[i].append((key, w, d))
+            if key in _cache or key in queued:
+                continue
+            queued.add(key)
+            try:
+                terms.append(coq_term(c, {"dist": d}))
+                idx.append((i, key))
+            except Exception as e:  # noqa
+                _cache[key] = "skip:certificate search failed (%r)" % (e,)
     if terms:
         toks, _ = core.eval_cases(PID, HEADER, terms, chunk=max(8, (len(terms) + core.NPROC - 1) // core.NPROC))
         for (i, key), t in zip(idx, toks):
             if t == "Agree":
                 v = "agree"
             elif t == "Disagree":
-                v = "disagree:model value differs from the implementation's %r" % units[i][1]["dist"]
+                v = "disagree:model value differs from the implementation's %s" % key[1]
             elif t == "Inconclusive":
                 v = "skip:certificates rejected by the verified checkers"
             else:
                 v = "disagree:coq evaluation failed"
-            verdicts[i] = v
             _cache[key] = v
+    for i, ks in pending.items():
+        vs = [(_cache.get(key, "disagree:coq evaluation failed"), w) for key, w, _ in ks]
+        worst = ([x for x in vs if x[0].startswith("disagree")] or [x for x in vs if x[0].startswith("skip")] or vs)[0]
+        verdicts[i] = worst[0] + (worst[1] if not worst[0].startswith("agree") else "")
     return verdicts
 
 
@@ -941,6 +1036,9 @@ def shrink_candidates(c):
             d = dict(c)
             d[side] = P[:j] + P[j + 1:]
             yield d
+    # the default spelling of the flag / order of the two calls
+    if c.get("flag") or c.get("flag_first"):
+        yield {k: v for k, v in c.items() if k not in ("flag", "flag_first")}
     # the plain representation: tells a value effect from a container / dtype / layout effect
     if any(c.get(k, "array") != "array" for k in ("rep", "repS", "repT")):
         d = {k: v for k, v in c.items() if k not in ("repS", "repT")}
